@@ -141,6 +141,10 @@ func c07Sender(c *Ctx) {
 // probedAbsent: at instruction `at` it is known that an os.Stat/Lstat of exactly the name v has just failed.
 func probedAbsent(v ssa.Value, at ssa.Instruction) bool {
 	for _, dc := range DomConds(at) {
+		// the probe behind a predicate: `for exists(name) { name = … }` – exists(name) is known false here
+		if hc, pol := condCall(dc); hc != nil && !pol && len(hc.Call.Args) == 1 && hc.Call.Args[0] == v && existsPredicate(hc.Call.StaticCallee()) {
+			return true
+		}
 		b, isB := dc.V.(*ssa.BinOp)
 		var errV ssa.Value
 		probeFailed := false
@@ -522,4 +526,34 @@ func newlineIndexOf(j ssa.Value, base ssa.Value, use ssa.Instruction) (bool, str
 		return true, ""
 	}
 	return walk(j, DomConds(use))
+}
+
+// existsPredicate: f(name) bool is `_, err := os.Lstat(name); return err == nil` (or Stat): true iff the name exists.
+func existsPredicate(f *ssa.Function) bool {
+	if f == nil || !InRepo(f) || f.Blocks == nil || len(f.Params) != 1 {
+		return false
+	}
+	var probe *ssa.Call
+	for _, call := range Calls(f) {
+		cal := call.Common().StaticCallee()
+		if FuncIs(cal, "os", "Lstat") || FuncIs(cal, "os", "Stat") {
+			if cv, ok := call.(*ssa.Call); ok && cv.Call.Args[0] == ssa.Value(f.Params[0]) {
+				probe = cv
+			}
+		}
+	}
+	if probe == nil || len(Returns(f)) == 0 {
+		return false
+	}
+	for _, r := range Returns(f) {
+		bo, ok := RetVals(r)[0].(*ssa.BinOp)
+		if !ok || bo.Op != token.EQL || !IsNilConst(bo.Y) {
+			return false
+		}
+		ex, ok := bo.X.(*ssa.Extract)
+		if !ok || ex.Tuple != ssa.Value(probe) || ex.Index != 1 {
+			return false
+		}
+	}
+	return true
 }
